@@ -238,16 +238,26 @@ class AcAbilityDecoder(
                 min_set_point,
                 max_set_point,
             ) = _STRUCT.unpack_from(buffer, offset=offset)
+            if following_length < _FOLLOWING_LENGTH_BASE:
+                raise comms.DecodeError(
+                    f"AC Ability following length ({following_length}) is less "
+                    f"than the minimum ({_FOLLOWING_LENGTH_BASE})"
+                )
+            # The following length counts the bytes after the AC number and the
+            # following length fields. Using it to locate the next AC allows
+            # records extended by newer console versions to be decoded.
+            next_offset = offset + (_STRUCT.size - _FOLLOWING_LENGTH_BASE) + following_length
             offset += _STRUCT.size
 
             groups: Optional[set[int]] = None
-            if following_length == (
+            if following_length >= (
                 _FOLLOWING_LENGTH_BASE + _GROUP_DISPLAY_STRUCT.size
             ):
                 (encoded_groups,) = _GROUP_DISPLAY_STRUCT.unpack_from(buffer, offset)
-                offset += _GROUP_DISPLAY_STRUCT.size
 
                 groups = self._decode_group_display(encoded_groups)
+
+            offset = next_offset
 
             ac_abilities.append(
                 AcAbility(
